@@ -214,6 +214,23 @@ pub fn filters(th: bool) -> Vec<Expr> {
         v.push(Expr::Paren(Box::new(Expr::Paren(Box::new(Expr::FuncTest(f))))));
     }
     v.extend(comparisons(th));
+    // negated comparisons `!(l op r)` over a reduced operand pool (a literal, a member, length(), count()): the only
+    // way to negate a comparison, and the place where "!(a < b)" and "a >= b" differ (nothing, non-numbers)
+    {
+        let red = vec![
+            Cmpable::Lit(Lit::int(1)),
+            Cmpable::Query(q_rel(vec![ch(sh("a"))])),
+            Cmpable::Func(call("length", vec![Expr::Test(q_rel(vec![ch(sh("a"))]))])),
+            Cmpable::Func(call("count", vec![Expr::Test(q_rel(vec![ch(Sel::Wild)]))])),
+        ];
+        for l in &red {
+            for op in Op::ALL {
+                for r in &red {
+                    v.push(Expr::Not(Box::new(Expr::Paren(Box::new(Expr::Cmp(l.clone(), op, r.clone()))))));
+                }
+            }
+        }
+    }
     v.extend(formulas(if th { 2 } else { 2 }));
     v
 }
